@@ -75,6 +75,12 @@ def run(tier, replay=None):
             cid = "c-%s-%d" % (kind, n)
             client_jobs.append({"id": cid, "kind": kind, "steps": steps})
             cmeta[cid] = (kind, steps, exp)
+            if kind == "stdio" and any(st["op"] == "close" for st in steps):
+                # the same history with the server process killed (and gone) before each Close: the client's state machine
+                # must not care how the transport's close fares
+                steps2 = [dict(st, kill_first=True) if st["op"] == "close" else dict(st) for st in steps]
+                client_jobs.append({"id": cid + "k", "kind": kind, "steps": steps2})
+                cmeta[cid + "k"] = (kind, steps2, exp)
     nproc = 12
     sj = [server_jobs[i::nproc] for i in range(nproc)]
     cj = [client_jobs[i::nproc] for i in range(nproc)]
